@@ -564,7 +564,7 @@ fn main() {
         "ws.rollback.ok", "ws.rollback.err_committed", "ws.put.err_not_active", "ws.merge.block_with_merged_ops",
         "append.ok", "append.err height", "append.err prev_hash", "append.err tx_root", "append.err unsigned", "append.err bad_sig",
         "verify.ok", "verify.err height", "verify.err prev_hash", "verify.err tx_root", "verify.err timestamp", "verify.err bad_sig",
-        "verify.err not_found", "verify.err empty_chain",
+        "verify.err not_found", "verify.err empty_chain", "tamper.genesis_transactions.detected", "concurrent.directed.reproduced",
     ]
     .iter()
     .map(|s| s.to_string())
@@ -738,6 +738,32 @@ fn main() {
     let mut r = root.fork("tamper");
     let lens: Vec<u64> = if args.thorough { (0..=12).chain(0..=12).collect() } else { (0..=12).collect() };
     let mut hash_seen: BTreeMap<Vec<u8>, Vec<u8>> = BTreeMap::new();
+    let mut obs_seen: BTreeSet<String> = BTreeSet::new();
+    // directed regression case for repo commit 8e53c5a4 (run first): genesis + one signed block, then forged
+    // transactions in the stored genesis block.  Must be detected ("tx_root does not match transactions"); the
+    // pre-fix model (`cverify_old`) answers ok on the same chain.
+    {
+        let rc = new_raw(true);
+        m.ask("cinit 1 1000");
+        let b = mk_block(&rc, "ok", "ok", "ok", "ok", 1000, 1, &[Tx::Put(1, 2)]);
+        let line = "cappend ok ok ok ok 1000 1 p1:2";
+        let imp = rc.chain.append(b).map_or_else(|e| verr(&e), |_| "ok".into());
+        rep.compare("tamper.genesis_tx.build", || json!({"line": line}), &imp, &m.ask(line));
+        let orig = read_block(&rc.store, 0).unwrap();
+        let forged = mutate_block(&rc, &orig, "transactions", "push_new").unwrap();
+        write_block(&rc.store, 0, &forged);
+        let imp = vres(rc.chain.verify_chain());
+        let a = m.ask("tamper 0 transactions push_new");
+        let model = if a == "ok" { m.ask("cverify") } else { format!("model:{a}") };
+        rep.compare("tamper.genesis_tx.verify", || json!({"build": [line], "mutation": "block 0 transactions push_new"}), &imp, &model);
+        rep.compare("tamper.genesis_tx.old_model", || json!({"build": [line], "mutation": "block 0 transactions push_new", "model": "verifyChainOld"}), "ok", &m.ask("cverify_old"));
+        rep.hit(&format!("tamper.genesis_transactions.{}", if imp == "ok" { "undetected" } else { "detected" }));
+        if imp == "ok" {
+            violation(&mut rep, "tensor_chain.verify/genesis_transactions_tamper_undetected", "forged transactions in the stored genesis block and Chain::verify_chain still returns Ok (regression of repo commit 8e53c5a4)", json!({"stream": "tamper", "registry": true, "chain_blocks_after_genesis": 1, "build": [line], "mutation": "block 0 transactions push_new"}));
+        }
+        rep.case("tamper.genesis_tx", Some("directed"));
+        m.ask("crestore");
+    }
     for (ci, n) in lens.iter().enumerate() {
         for with_reg in [true, false] {
             let rc = new_raw(with_reg);
@@ -797,7 +823,9 @@ fn main() {
                         violation(rep, &class, "a stored block was altered and Chain::verify_chain still returns Ok", input);
                     } else {
                         // no validator keys registered: outside the property's quantifier
-                        rep.observe(json!({"note": "no registry: undetected mutation", "class": class, "mutation": desc, "blocks": n}));
+                        if obs_seen.insert(class.clone()) {
+                            rep.observe(json!({"note": "no registry: undetected mutation (first occurrence of this class)", "class": class, "mutation": desc, "blocks": n}));
+                        }
                     }
                 }
                 undo();
@@ -1006,12 +1034,23 @@ fn main() {
     }
 
     // ---------------- stream E: 2-4 real threads committing concurrently (oracle only)
+    // The first DIRECTED_MAX indices are one directed scenario (2 threads, plain workspaces, disjoint keys) retried
+    // until the lost-commit interleaving has been produced once (bounded; the OS schedules the threads), then skipped.
+    const DIRECTED_MAX: u64 = 300;
     let mut r = root.fork("concurrent");
-    for case in 0..40 * scale {
-        let nthreads = 2 + r.below(3) as usize;
-        let auto_merge = r.chance(1, 2);
-        let conflicting = r.chance(1, 2);
-        let directional = r.chance(1, 2);
+    let mut lost_seen = false;
+    let mut directed_attempts = 0u64;
+    for idx in 0..DIRECTED_MAX + 40 * scale {
+        let directed = idx < DIRECTED_MAX;
+        if directed && lost_seen {
+            continue;
+        }
+        let case = idx.saturating_sub(DIRECTED_MAX);
+        let (nthreads, auto_merge, conflicting, directional) =
+            if directed { (2usize, false, false, false) } else { (2 + r.below(3) as usize, r.chance(1, 2), r.chance(1, 2), r.chance(1, 2)) };
+        if directed {
+            directed_attempts += 1;
+        }
         let store = TensorStore::new();
         let mut cfg = ChainConfig::new("n");
         cfg.auto_merge = AutoMergeConfig { enabled: auto_merge, orthogonal_threshold: 0.1, max_merge_batch: 10, merge_window_ms: u64::MAX / 4 };
@@ -1074,8 +1113,23 @@ fn main() {
             "results": results.iter().map(|x| x.as_ref().map_or_else(|e| e.clone(), |_| "ok".into())).collect::<Vec<_>>(),
             "ws_states": wss.iter().map(|w| format!("{:?}", w.state())).collect::<Vec<_>>(),
             "height": height, "blocks_present": present, "verify": ver, "data": show_image(&img), "data_by_chain_replay": show_image(&replay)});
-        rep.hit(&format!("concurrent.threads{nthreads}.oks{oks}"));
+        if !directed {
+            rep.hit(&format!("concurrent.threads{nthreads}.oks{oks}"));
+        }
         let want: Vec<u64> = (0..=height).collect();
+        if directed {
+            // only the attempt that shows the race is counted as a case (attempts needed vary with the OS scheduler)
+            if ver != "ok" || present != want {
+                lost_seen = true;
+                rep.hit("concurrent.directed.reproduced");
+                violation(&mut rep, "tensor_chain.commit/concurrent_commit_lost", "after concurrent commits the chain does not verify / a block record below the in-memory height is missing (a losing commit restored a snapshot taken before the winner's append)", input.clone());
+                rep.case("concurrent", Some("directed 2 threads"));
+                rep.observe(json!({"note": "directed concurrent scenario: attempts until the lost-commit interleaving appeared", "attempts": directed_attempts, "bound": DIRECTED_MAX}));
+            } else if idx + 1 == DIRECTED_MAX {
+                rep.observe(json!({"note": "directed concurrent scenario: lost-commit interleaving not produced within the bound", "attempts": directed_attempts}));
+            }
+            continue;
+        }
         if ver != "ok" || present != want {
             violation(&mut rep, "tensor_chain.commit/concurrent_commit_lost", "after concurrent commits the chain does not verify / a block record below the in-memory height is missing (a losing commit restored a snapshot taken before the winner's append)", input.clone());
         } else {
@@ -1103,7 +1157,7 @@ fn main() {
         }
         let ckey = format!("{case} {nthreads} {auto_merge} {conflicting} {directional} {:?}", results.iter().map(Result::is_ok).collect::<Vec<_>>());
         rep.case("concurrent", if oks > 0 { Some(&ckey) } else { None });
-        if case == 0 {
+        if idx == DIRECTED_MAX {
             rep.sample(input);
         }
     }
